@@ -267,3 +267,16 @@ def edit_loaded_sample_in_place(H, nframes):
         H.check("new_frame_count", got.frames == nframes and got._length == nframes)
         H.check("new_volume", H.eq(got.volume, smp.volume))
     H.cover("reached")
+
+
+@contract("edit_canary", ["C06"], targets=["rv.modules.module:Module.options_chunks"], canary=True)
+def edit_canary(H, _):
+    """False claim: an edited 8-bit option survives for every integer (values above 255 are masked)."""
+    from rv.modules.sampler import Sampler as S
+
+    s = S()
+    q = H.call(s.clone)
+    v = H.int("v", 0, 1000)
+    q.option_values["fit_to_pattern"] = v
+    r = H.call(q.clone)
+    H.check("canary_any_value_survives", r.option_values["fit_to_pattern"] == v)
